@@ -21,7 +21,7 @@ pub const SPEC: PropSpec = PropSpec {
 	],
 	cases: (50_000_000, 4_000_000_000),
 	secs: (30, 600),
-	required: &["ok_roundtrips", "typed_fixture_roundtrips"],
+	required: &["ok_roundtrips", "typed_fixture_roundtrips", "typed_fixed_length_sequences", "datum_into_short_writing_sink_equal"],
 	run_case,
 	once: Some(once),
 	panics_are_violations: true,
@@ -128,6 +128,21 @@ pub fn roundtrip(
 				describe(json!({"bytes": hex(&bytes), "reference_decode": format!("{other:?}").chars().take(400).collect::<String>()})),
 			);
 			return;
+		}
+	}
+	// the same datum streamed into a writer that takes only part of each write call
+	if rng.chance(1, 4) {
+		let (sched, native) = pick_datum_sink_schedule(rng);
+		match ser_datum_sink(schema, rs, v, pres, sched.clone(), native) {
+			Ok(b) if b == bytes => ctx.count("datum_into_short_writing_sink_equal"),
+			other => {
+				ctx.violation(
+					"ser-bytes-depend-on-the-writer's-write-granularity",
+					case_seed,
+					describe(json!({"bytes_into_vec": hex(&bytes), "into_sink": format!("{:?}", other.map(|b| hex(&b))).chars().take(600).collect::<String>(), "schedule": sched, "native_write_vectored": native})),
+				);
+				return;
+			}
 		}
 	}
 	let mo = ModeOwned::random(rng);
